@@ -10,6 +10,7 @@
 package ssa
 
 //@ func align
+//@ params x a
 //@ props C08
 //@ requires pow2: a > 0 && a&(a-1) == 0
 //@ requires range: 0 <= x && x <= 0x7fffffffffffffff - a
